@@ -29,6 +29,10 @@ pub struct Ledger {
     pub owed_batches: int,
     /// refunded staked-asset transfers not yet re-sent
     pub refunded: int,
+    /// the contract's own LST balance (bank / token factory)
+    pub lst_bal: int,
+    /// refunded outbound LST transfers not yet re-sent
+    pub lst_refunded: int,
 }
 
 // ------------------------------------------------------------------ invariants
@@ -98,8 +102,16 @@ pub open spec fn step_submit(s0: StoreView, env: Env, s1: StoreView, ms: Seq<Sub
 }
 pub open spec fn led_submit(l: Ledger, s0: StoreView) -> Ledger {
     let b = s0.batches[s0.pending_batch_id->Some_0];
-    Ledger { set_aside: l.set_aside + submit_unbond(s0), supply: l.supply - b.batch_total_liquid_stake.0, ..l }
+    // E3: the burn takes the batch total out of the supply and out of the contract's own LST balance
+    Ledger { set_aside: l.set_aside + submit_unbond(s0), supply: l.supply - b.batch_total_liquid_stake.0,
+             lst_bal: l.lst_bal - b.batch_total_liquid_stake.0, ..l }
 }
+/// E2: the unstaker's LST arrives with the message
+pub open spec fn led_unstake(l: Ledger, amount: nat) -> Ledger { Ledger { lst_bal: l.lst_bal + amount, ..l } }
+/// the LST queued in the pending batch
+pub open spec fn pending_total(s: StoreView) -> int { s.batches[s.pending_batch_id->Some_0].batch_total_liquid_stake.0 as int }
+/// C03 (second half): the contract holds exactly the LST queued in the pending batch plus refunded LST transfers
+pub open spec fn inv3b(s: StoreView, l: Ledger) -> bool { l.lst_bal == pending_total(s) + l.lst_refunded }
 
 pub open spec fn step_withdraw(s0: StoreView, env: Env, info: MessageInfo, batch_id: u64, s1: StoreView, ms: Seq<SubMsg>) -> bool {
     let c = cfg(s0);
@@ -344,5 +356,30 @@ pub proof fn lemma_payouts_le_received(r: nat, a: Seq<nat>, t: nat)
         lemma_muldiv_superadd(r, sum_nat(a.drop_last()), a.last(), t);
     }
     lemma_muldiv_le(r, sum_nat(a), t);
+}
+} // verus!
+
+verus! {
+// ------------------------------------------------------------------ C03: the contract's own LST balance
+// [C03.lst-balance-unstake]
+pub proof fn lemma_lst_unstake(s0: StoreView, info: MessageInfo, amount: nat, s1: StoreView, ms: Seq<SubMsg>, l: Ledger)
+    requires invb(s0), inv3b(s0, l), step_unstake(s0, info, amount, s1, ms), amount <= AMOUNT_MAX(), pending_total(s0) <= u128::MAX - AMOUNT_MAX(),
+    ensures inv3b(s1, led_unstake(l, amount)),
+{
+}
+// [C03.lst-balance-submit]
+pub proof fn lemma_lst_submit(s0: StoreView, env: Env, s1: StoreView, ms: Seq<SubMsg>, l: Ledger)
+    requires invb(s0), inv3b(s0, l), step_submit(s0, env, s1, ms), s0.pending_batch_id->Some_0 < u64::MAX,
+    ensures inv3b(s1, led_submit(l, s0)), pending_total(s1) == 0,
+{
+    let p = s0.pending_batch_id->Some_0;
+    assert(s0.batches[p].id == p);
+}
+// [C03.lst-balance-unstaked]
+pub proof fn lemma_lst_unstaked(s0: StoreView, env: Env, info: MessageInfo, batch_id: u64, s1: StoreView, ms: Seq<SubMsg>, l: Ledger)
+    requires invb(s0), inv3b(s0, l), step_unstaked(s0, env, info, batch_id, s1, ms),
+    ensures inv3b(s1, led_unstaked(l, s0, info)),
+{
+    assert(s0.batches[batch_id].id == batch_id);
 }
 } // verus!
